@@ -200,7 +200,7 @@ pub fn check_triple(case: &Case, a: &[u32], b: &[u32], c: &[u32]) -> bool {
     true
 }
 
-fn clock_case(case: &mut Case) {
+pub fn clock_case(case: &mut Case) {
     let a = gen_vec(&mut case.rng);
     let b = if case.rng.pct(60) { gen_related(&mut case.rng, &a) } else { gen_vec(&mut case.rng) };
     let c = match case.rng.below(4) {
@@ -245,7 +245,7 @@ impl Rewrite<Id> for Val {
     }
 }
 
-fn dense_case(case: &mut Case) {
+pub fn dense_case(case: &mut Case) {
     let n = case.rng.below(7);
     let values: Vec<Val> = (0..n).map(|_| Val(case.rng.below(4) as u8, Id::from(case.rng.below(n.max(1))))).collect();
     let mut pairs: Vec<(Id, Val)> = values.iter().cloned().enumerate().map(|(i, v)| (Id::from(i), v)).collect();
@@ -379,4 +379,7 @@ pub fn run(ctx: &mut Ctx) {
         case.distinct(hash_of(&(a, b)), a.len() + b.len() >= 2);
     });
     ctx.info("exhaustive_small_spaces", json!(format!("pairs: all vectors of length <= {} over {{0,1,2}}; triples: length <= {}", pair_len, ctx.n(2, 3))));
+    if !ctx.quick() && !ctx.is_replay() && std::env::var_os("SVMON_LANE").is_none() {
+        crate::checks::c05::miri_smoke_lane(ctx, "c20", "C20");
+    }
 }
